@@ -11,7 +11,7 @@ fn attach_o(o: &Observable<'static, u8>, log: &'static Log) -> Subscription<'sta
 }
 
 #[kani::proof]
-#[kani::unwind(4)]
+#[kani::unwind(3)]
 fn k_subject2_behavior__latest_then_live() {
   let init: u8 = kani::any();
   let a: u8 = kani::any();
@@ -33,7 +33,7 @@ fn k_subject2_behavior__latest_then_live() {
 }
 
 #[kani::proof]
-#[kani::unwind(4)]
+#[kani::unwind(3)]
 fn k_subject2_behavior__stored_error() {
   let sbj = subjects::BehaviorSubject::<u8>::new(0);
   let id: u8 = kani::any();
@@ -45,7 +45,7 @@ fn k_subject2_behavior__stored_error() {
 }
 
 #[kani::proof]
-#[kani::unwind(4)]
+#[kani::unwind(3)]
 fn k_subject2_replay__history_then_live() {
   let a: u8 = kani::any();
   let b: u8 = kani::any();
@@ -65,7 +65,7 @@ fn k_subject2_replay__history_then_live() {
 }
 
 #[kani::proof]
-#[kani::unwind(4)]
+#[kani::unwind(3)]
 fn k_subject2_async__last_item_on_completion() {
   let a: u8 = kani::any();
   let b: u8 = kani::any();
@@ -83,7 +83,7 @@ fn k_subject2_async__last_item_on_completion() {
 // re-entrancy: a second observer joins from inside the first observer's next callback while v is being multicast: it must be
 // handed v (the latest value at that moment), exactly once
 #[kani::proof]
-#[kani::unwind(4)]
+#[kani::unwind(3)]
 fn k_subject2_behavior__join_inside_next() {
   let sbj = subjects::BehaviorSubject::<u8>::new(0);
   let l1 = Log::new();
@@ -111,7 +111,7 @@ fn k_subject2_behavior__join_inside_next() {
 // two observers attached through the SAME Observable handle of a ReplaySubject; the first one leaves; the second must keep
 // receiving and the first must be gone from the underlying subject
 #[kani::proof]
-#[kani::unwind(4)]
+#[kani::unwind(3)]
 fn k_subject2_replay__shared_handle_one_leaves() {
   let sbj = subjects::ReplaySubject::<u8>::new();
   let o = sbj.observable();
